@@ -11,7 +11,7 @@ MAIN = "cmd/helios"
 ENGINES = [
     dict(name="S", path="engine/shim/vrt", serves_properties=["C02", "C04", "C05", "C06", "C07", "C08", "C09", "C11", "C12", "C13", "C19"],
          kind_free_text="controlled cooperative scheduler + stateless replay DFS with preemption bounding over the real Helios code (sync/atomic/time/go/select rewritten onto shims by vgen)"),
-    dict(name="W", path="engine/shim/wire", serves_properties=["C01", "C14", "C15", "C16", "C17", "C18"],
+    dict(name="W", path="engine/shim/wire", serves_properties=["C01", "C10", "C14", "C15", "C16", "C17", "C18"],
          kind_free_text="exhaustive enumeration of finite input / configuration / fault-sequence products over real connections: raw-socket HTTP/1.1 client, scripted backends on loopback listeners, the real handler chain behind the real http.Server; differential and reference oracles on the exchanged bytes"),
     dict(name="H", path="engine/shim/vh/hrun.go", serves_properties=["C02", "C04", "C05", "C06", "C07", "C08", "C09", "C11", "C12", "C13", "C19"],
          kind_free_text="explicit-state breadth-first search over event histories of the real objects under a virtual clock, reflective state fingerprint for deduplication, reference-model / monitor oracle on every transition"),
@@ -230,6 +230,17 @@ CHECKS = {
         note="The reference validity of a fragment is transcribed from the README, the comments of the sample files and the validator's own error texts; where these disagreed (README basic example vs. the rejections pinned by config tests) the example was repaired. Tutorial yaml blocks that configure a plugin the reader is meant to write are skipped and listed in the evidence.",
         jobs=[
             dict(name="c18w", part="W", pkg=MAIN, run="TestVerifC18", mode="plain", gomaxprocs=2, needs_binary=True, shards=dict(quick=8, thorough=16), timeout=dict(quick=600, thorough=3000)),
+        ],
+        assumptions=[],
+    ),
+    "C10": dict(
+        level="exploration",
+        engine="W",
+        technique="exhaustive enumeration of the product of peer addresses, allow/deny lists, forged headers, token configurations, Authorization spellings and endpoints against the real admin handler behind a real server with spoofed peers, judged by a net/netip reference policy",
+        text="The real adminapi.NewMux handler is served by a real http.Server on an in-memory listener whose connections report an arbitrary peer address. IP product: allow list x deny list (every sub-list of size <= 1, thorough <= 2, of eight entries incl. overlapping prefixes, IPv6, 0.0.0.0/0 and two malformed entries) x nine peers (IPv4, IPv6, IPv4-mapped, zoned) x six forged X-Forwarded-For / X-Real-IP variants x endpoints, judged by a net/netip reference policy (deny wins, unparsable peers refused, malformed entries fail closed, refused mutations leave the balancer untouched, refusals disclose no backend). Token product: token configured or not x eleven Authorization spellings x ten endpoint/method pairs x peers x two IP configurations (exact 'Bearer <token>' only, /v1/health exempt, 401 otherwise, nothing changed or revealed).",
+        note="Refusing is always acceptable where the reference says 'either' (configurations with malformed entries); 'served' means any status other than 401/403.",
+        jobs=[
+            dict(name="c10w", part="W", pkg=MAIN, run="TestVerifC10", mode="plain", gomaxprocs=2, shards=dict(quick=12, thorough=16), timeout=dict(quick=600, thorough=3000)),
         ],
         assumptions=[],
     ),
